@@ -9,9 +9,17 @@
    and, over the abstract builder state machines of Model/Builders.v (block encoding / Elias-Fano arrays
    abstracted to the run list / the position list), the two definitions below. *)
 From Coq Require Import NArith List Bool.
-Require Import SDS.Model.Mach SDS.Model.Builders SDS.Spec.BuilderSpec SDS.Spec.BitSeq.
+Require Import SDS.Model.Mach SDS.Model.Raw SDS.Model.BitVec SDS.Model.Builders SDS.Spec.BuilderSpec SDS.Spec.BitSeq.
 Import ListNotations.
 Open Scope N_scope.
+
+(* ---- what a conversion reads from a BitVector source ---- *)
+
+(* `source.one_iter()` collected: the positions (second components) of all items. The number of items is
+   count_ones(), a number of set bits actually stored, so it is a legitimate nat fuel. *)
+Definition bv_one_positions (b : bitvec) : res (list N) :=
+  let* l := oi_collect Identity b (S (N.to_nat (bv_count_ones b))) (oi_start Identity b) in
+  Ok (map snd l).
 
 (* ---- RLVector::copy_bit_vec over the abstract RLBuilder ---- *)
 
@@ -57,19 +65,6 @@ Definition sp_copy_abs (m : mode) (ps : list N) (len ones : N) : res (N * N * li
     end
   end.
 
-(* ---- chains of conversions at the level of what every conversion reads and every target stores ---- *)
-
-(* the three types *)
-Inductive vtype := TBit | TSparse | TRL.
-
-(* What one conversion step does with the (len, one_iter positions) it reads from its source: it builds the
-   target from them, and the target's own (len, one_iter positions) are what the next step reads.
-   [repr T len ps] is the content (length, set positions) of the structure of type T built by copy_bit_vec from
-   (len, ps), as established by the per-target theorems: for every target it is (len, ps) again. A chain is a
-   list of target types. *)
-Definition content : Type := (N * list N)%type.
-Definition content_of (B : list bool) : content := (lenB B, ones B).
-
 (* the maximal runs of a bit sequence, starting to count positions at [pos] *)
 Fixpoint runs_of_bits_from (B : list bool) (pos : N) : list (N * N) :=
   match B with
@@ -89,3 +84,44 @@ Definition ops_bits (B : list bool) : list rlop := map (fun p => TrySet p 1) (on
 (* one call per maximal run, then set_len *)
 Definition ops_runs (B : list bool) : list rlop :=
   map (fun r => TrySet (fst r) (snd r)) (runs_of_bits B) ++ [SetLen (lenB B)].
+
+(* ---- chains of conversions ---- *)
+
+(* the three types; the run-length and sparse vectors at the abstraction level of Model/Builders.v:
+   (runs, len, ones) and (len, ones, positions) *)
+Inductive vtype := TBit | TSparse | TRL.
+Inductive vec :=
+| VB (b : bitvec)
+| VS (v : N * N * list N)
+| VR (v : list (N * N) * N * N).
+
+Definition type_of (x : vec) : vtype := match x with VB _ => TBit | VS _ => TSparse | VR _ => TRL end.
+
+(* what `copy_bit_vec(&source)` reads from its source: len(), count_ones() and the positions of one_iter().
+   BitVector: the model's iterator. Sparse (abstract): the stored positions. Run-length (abstract): the
+   increasing list of the positions covered by the runs; it is given by its specification (the iterator of the
+   concrete RLVector is the subject of C03), and never materialised from a run length. *)
+Definition reads (x : vec) (n o : N) (ps : list N) : Prop :=
+  match x with
+  | VB b => bv_len b = n /\ bv_count_ones b = o /\ bv_one_positions b = Ok ps
+  | VS v => v = (n, o, ps)
+  | VR v => snd (fst v) = n /\ snd v = o /\ chain N.lt ps /\
+            forall p, existsb (N.eqb p) ps = in_runs (fst (fst v)) p
+  end.
+
+(* `$target::copy_bit_vec` on what was read *)
+Definition copy_to (m : mode) (t : vtype) (n o : N) (ps : list N) : res vec :=
+  match t with
+  | TBit => rmap VB (bv_copy n ps)
+  | TSparse => rmap VS (sp_copy_abs m ps n o)
+  | TRL => rmap VR (rl_copy_abs m ps n)
+  end.
+
+(* one conversion `$target::from(source)` = `$target::copy_bit_vec(&source)` *)
+Definition converts (m : mode) (t : vtype) (x y : vec) : Prop :=
+  exists n o ps, reads x n o ps /\ copy_to m t n o ps = Ok y.
+
+(* x converted to ts[0], the result to ts[1], ... *)
+Inductive chain_conv (m : mode) : list vtype -> vec -> vec -> Prop :=
+| cc_nil x : chain_conv m [] x x
+| cc_cons t ts x y z : converts m t x y -> chain_conv m ts y z -> chain_conv m (t :: ts) x z.
